@@ -39,6 +39,14 @@ CHECKS["C01"] = dict(
     technique="bounded-exhaustive program enumeration (small-scope hypothesis) on the real pipeline with an executable reference model",
 )
 
+CHECKS["C02"] = dict(
+    category="exploration",
+    text="Exhaustive enumeration of input families whose accepted members must yield compilable Python with annotate off and on: (a) the whole M0 program pool of C01; (b) all integer lexemes over {0,1,9} up to length 3, real and E-notation shapes (leading zeros, empty exponent, trailing dot) in 8 positions, all string bodies over a 10-symbol alphabet (quotes, braces, backslash, line break, interpolation, #) up to length 3 (4), doc strings in 4 positions; (c) every block position (13) x every body that may vanish from the output (8); (d) all ordered selections of <= 3 match arms from {two literals, wildcard, capture} as statement and as expression; (e) all parameter lists of <= 3 parameters over 8 parameter kinds for functions and methods, class argument lists; (f) every single-token mutation (delete, duplicate, swap, replace-by-v, insert-v over a 24-token vocabulary) at every token of the 30 smallest (all 277) repository samples and of generated programs. Oracle: CPython compile() of every emitted file.",
+    design_ref="DESIGN.md §4 C02",
+    note="Judge is CPython 3.11 compile(); token boundaries come from an independent regex tokenizer. Five unrepaired defect classes (parameter-list shapes, unreachable match arms, statement-form if at expression position, literal handle binder, unbalanced f-string braces / nested quotes) are delimited by known findings C02-F1..F5 through tags on the emitted text and the CPython message.",
+    technique="bounded-exhaustive input enumeration (literal shapes, structural families, all single-token mutations) on the real pipeline, CPython compile as oracle",
+)
+
 REASON_PENDING = "check not built yet in this session (see DESIGN.md Appendix D build order); nothing is claimed for it"
 
 
